@@ -15,7 +15,7 @@ for every key (run-time values); fairness of the random start.
 import ast
 
 from ..model import self_attr, unparse, walk_body_shallow
-from .util import call_name, call_recv, calls_in, need, node_assign_value, norm, where
+from .util import at, const_value, expand, module_const, call_name, call_recv, calls_in, need, node_assign_value, norm, where
 
 TECHNIQUE = "bit-width abstract interpretation of pure_murmur2, constant-table agreement, purity/effect analysis, " \
             "single-advance path check"
@@ -128,17 +128,18 @@ def run(ctx):
     rets = [x for x in walk_body_shallow(part.body) if isinstance(x, ast.Return)]
     ok = False
     mask = None
-    if len(rets) == 1 and isinstance(rets[0].value, ast.Subscript) and norm(rets[0].value.value) == part.params[2]:
-        idx = rets[0].value.slice
+    rv = expand(prog, part, rets[0].value, calls=True) if len(rets) == 1 else None
+    if rv is not None and isinstance(rv, ast.Subscript) and norm(rv.value) == part.params[2]:
+        idx = rv.slice
         if isinstance(idx, ast.BinOp) and isinstance(idx.op, ast.Mod) and norm(idx.right) == "len(%s)" % part.params[2]:
             left = idx.left
             if isinstance(left, ast.BinOp) and isinstance(left.op, ast.BitAnd):
                 for a, b in ((left.left, left.right), (left.right, left.left)):
-                    v = _const_val(b, {})
-                    if isinstance(v, int) and v >= 0 and isinstance(a, ast.Call) and norm(a.func) == "self._hash" and norm(a.args[0]) == part.params[1]:
+                    v = const_value(prog, part, b)
+                    if isinstance(v, int) and not isinstance(v, bool) and v >= 0 and isinstance(a, ast.Call) and norm(a.func) == "self._hash" and norm(a.args[0]) == part.params[1]:
                         ok, mask = True, v
     r.check(ok, "%s#index-in-range" % part.qname, "result is not list[(hash(key) & mask) %% len(list)] with a non-negative mask: %s" % (
-        norm(rets[0].value) if rets else "?"), where(part, part.node), "negative hash: negative index picks from the wrong end / IndexError-free wrong partition",
+        norm(rv) if rv is not None else "?"), where(part, part.node), "negative hash: negative index picks from the wrong end / IndexError-free wrong partition",
         facts=["mask=%s" % (hex(mask) if mask is not None else None)])
 
     # ---- R2 purity
@@ -196,13 +197,17 @@ def run(ctx):
     # ---- R4 32-bit discipline and constants
     r = ctx.rule("R4", "pure_murmur2: operands of >> and the result are < 2**32; byte placement; tail fall-through; Java constants", 6, "E")
     consts = {}
+    for nm, ve in m.constants.items():
+        v = const_value(prog, pm, ve)
+        if isinstance(v, int) and not isinstance(v, bool) and module_const(pm, nm) is not None:
+            consts[nm] = v
     for st in pm.body:
         if isinstance(st, ast.Assign) and isinstance(st.targets[0], ast.Name):
             v = _const_val(st.value, consts)
             if isinstance(v, int):
                 consts[st.targets[0].id] = v
     a = pm.node.args
-    seed_default = _const_val(a.defaults[-1], {}) if a.defaults else None
+    seed_default = _const_val(a.defaults[-1], consts) if a.defaults else None
     W = Width(consts)
     env = {"@bytes:" + pm.params[0]: True, pm.params[1] if len(pm.params) > 1 else "seed": 32}
     body = [st for st in pm.body if not (isinstance(st, ast.If) and "isinstance" in norm(st.test))]
@@ -255,7 +260,7 @@ def run(ctx):
            "shift2": finals[1] if len(finals) > 1 else None, "positive": mask}
     r.check(got == JAVA, "%s#java-constants" % PM, "constants differ from Kafka's Utils.murmur2: %s" % {k: (hex(v) if isinstance(v, int) else v) for k, v in got.items() if JAVA[k] != v},
             where(pm, pm.node), "producers in the two languages no longer co-locate a key")
-    seeds = [_const_val(c.args[1], {}) for f in hashes for c in calls_in(f, "murmurhash2") if len(c.args) > 1]
+    seeds = [const_value(prog, f, c.args[1]) for f in hashes for c in calls_in(f, "murmurhash2") if len(c.args) > 1]
     r.check(all(s == JAVA["seed"] for s in seeds) and bool(seeds), "partitioner:HashedPartitioner._hash#c-seed", "C variant uses another seed: %s" % seeds)
 
     # ---- R5 round robin
@@ -265,7 +270,7 @@ def run(ctx):
     cf = ctx.cfg(rp)
     rets = [n for n in cf.nodes if n.kind == "stmt" and isinstance(n.stmt, ast.Return)]
     nexts = [c for c in calls_in(rp, "next")]
-    r.check(len(rets) == 1 and len(nexts) == 1 and norm(rets[0].stmt.value) == "next(self.iterpart)", "%s#single-advance" % rp.qname,
+    r.check(len(rets) == 1 and len(nexts) == 1 and norm(at(ctx, rp, rets[0].id, rets[0].stmt.value)) == "next(self.iterpart)", "%s#single-advance" % rp.qname,
             "partition() does not return exactly one next() of the cycle", where(rp, rp.node), "a partition is skipped or repeated: not k times each in k*n calls")
     fr = ctx.facts(rp)
     calls = [(f, c) for f in [x for x in prog.funcs.values() if x.cls is rr] for c in calls_in(f, sp.name)]
@@ -281,8 +286,9 @@ def run(ctx):
     cyc = [n for n in cs.nodes if node_assign_value(n, "iterpart") is not None]
     key = [n for n in cs.nodes if node_assign_value(n, "partitions") is not None]
     extra = [n for n in cs.nodes if any(call_name(c) == "next" for c in n.calls())]
-    ok = len(cyc) == 1 and norm(node_assign_value(cyc[0], "iterpart")) == "cycle(%s)" % sp.params[1] and len(key) == 1 and \
-        norm(node_assign_value(key[0], "partitions")) == "sorted(%s)" % sp.params[1] and all(("self.randomStart", True) in fs[n.id] for n in extra)
+    ok = len(cyc) == 1 and norm(expand(prog, sp, node_assign_value(cyc[0], "iterpart"), calls=True)) == "cycle(%s)" % sp.params[1] and len(key) == 1 and \
+        norm(expand(prog, sp, node_assign_value(key[0], "partitions"), calls=True)) == "sorted(%s)" % sp.params[1] and all(
+            ("self.randomStart", True) in fs[n.id] and norm(at(ctx, sp, n.id, c.args[0])) == "self.iterpart" for n in extra for c in n.calls() if call_name(c) == "next")
     r.check(ok, "%s#cycle-over-list" % sp.qname, "cycle is not built over the supplied list / extra advances outside the random start", where(sp, sp.node))
 
     # ---- R6 producer wiring
